@@ -162,6 +162,13 @@ def build_target(method, cut, scalar_cos):
         g.losPathLen = v["L"][hm][vm]
         g.sun_moon_cut = cut
         g.too_source = DarkSky()
+        # the configuration the real object carries: both detectors enabled (the default), so that code consulting it instead of the
+        # `method` argument is exercised on the combination where the two differ
+        import types as _t
+
+        g.config = _t.SimpleNamespace(detector=_t.SimpleNamespace(optical=_t.SimpleNamespace(enable=True), radio=_t.SimpleNamespace(enable=True),
+                                                                  sun_moon=_t.SimpleNamespace(sun_moon_cuts=cut)),
+                                      simulation=_t.SimpleNamespace(mode="Target"))
         ct = v["ct0"] if scalar_cos else v["ct"][hm][vm]
         args = [v["trig"][hm][vm], ct, v["pexit"][hm][vm], v["thr"], v["sn"], v["sw"]]
         return call_target, [g, args, {"lenDec": v["l"][hm][vm], "method": method}], {}
